@@ -245,6 +245,8 @@ func GetKeyFields(fields []string) (allFields []string, nonRootFields []string) 
 
 	for _, field := range fields {
 		switch {
+		case field == "":
+			// an empty name (FieldList: [""] passes validation) cannot name a field; skip it
 		case field[0] == RootPrefixFirstChar && strings.HasPrefix(field, RootPrefix):
 			// If the field starts with "root.", add it to rootFields
 			rootFields = append(rootFields, field[len(RootPrefix):])
